@@ -31,6 +31,7 @@ type Ctx struct {
 	nodeIdx   map[*ssa.Function]map[token.Pos]ast.Node
 	funcs     map[string]*ssa.Function
 	loadS     float64
+	mkIface   map[string]map[string]bool
 }
 
 func loadCtx(repo string, patterns []string) (*Ctx, error) {
@@ -227,10 +228,24 @@ func findLoops(fn *ssa.Function) map[*ssa.BasicBlock]*LoopInfo {
 		}
 	}
 	var ls []*LoopInfo
+	bodyStart := token.NoPos
+	if syn := fn.Syntax(); syn != nil {
+		switch d := syn.(type) {
+		case *ast.FuncDecl:
+			if d.Body != nil {
+				bodyStart = d.Body.Lbrace
+			}
+		case *ast.FuncLit:
+			bodyStart = d.Body.Lbrace
+		}
+	}
 	for _, li := range loops {
 		for b := range li.Body {
 			for _, in := range b.Instrs {
-				if p := in.Pos(); p.IsValid() && (li.minPos == 0 || p < li.minPos) {
+				if _, isPhi := in.(*ssa.Phi); isPhi {
+					continue // a phi's position is the variable's declaration
+				}
+				if p := in.Pos(); p.IsValid() && p > bodyStart && (li.minPos == 0 || p < li.minPos) {
 					li.minPos = p
 				}
 			}
